@@ -230,6 +230,29 @@ def gen(rng, tier, shard, batch):
                         for m in MODES:
                             reqs.append("k_shdr %d %d %d %s" % (a, k, b, m))
                             reqs.append("k_shdr %d %d %d %s" % (-a, k, b, m))
+    # the high-word pre-reduction boundary: the upper 128-bit word of the dividend equals the divisor (+-1)
+    for _ in range(60 if batch == 0 else 10):
+        k = rng.randrange(20, 39)
+        hi = P10[k] // 2
+        y = rng.randrange(1 << 64, min(hi, M) + 1)
+        for dy in (-1, 0, 1):
+            x = -((-(y + dy) << 128) // P10[k])
+            if 0 < x <= M:
+                reqs.append("k_shdm %d %d %d" % (sg(rng, x), k, y))
+                reqs.append("k_shdr %d %d %d %s" % (sg(rng, x), k, sg(rng, y), rng.choice(MODES)))
+                # API level: x @ p / y @ q with 18 + q - p == k
+                q = rng.randrange(max(0, k - 18), 19) if k - 18 < 19 else 18
+                p = 18 + q - k
+                if 0 <= p <= 18:
+                    reqs.append("mode " + rng.choice(MODES))
+                    reqs.append("div * %s %s" % (G.fD(sg(rng, x), p), G.fD(sg(rng, y), q)))
+        x1 = rng.getrandbits(rng.randrange(100, 127)) | 1
+        m = rng.randrange(1 << 64, x1 // 2)
+        for dm in (-1, 0, 1):
+            x2 = -((-(m + dm) << 128) // x1)
+            if 0 < x2 <= M:
+                reqs.append("k_i256 %d %d %d" % (sg(rng, x1), sg(rng, x2), m))
+    reqs.append("mode RoundHalfEven")
     per_mode = N_RANDOM[tier] // 16
     for mode in MODES:
         reqs.append("mode " + mode)
